@@ -106,6 +106,11 @@ def build_pairs():
             for text, f in lin_units(lin):
                 pairs.append(("log2lin", lu, text))
                 pairs.append(("lin2log", text, lu))
+            if lin == "W":
+                # the documented fraction form: a spectral density such as dBmW/Hz <-> W/Hz
+                for text, f in lin_units(lin)[:4]:
+                    pairs.append(("log2lin", lu + "/Hz", text + "/Hz"))
+                    pairs.append(("lin2log", text + "/Hz", lu + "/Hz"))
     for (a, b), off in SAME_DB.items():
         for pa in ("", "d"):
             for pb in ("", "d"):
@@ -172,6 +177,10 @@ def exhaustive(tier, shard, nshards):
 
 
 # --------------------------------------------------------------------------- oracle
+
+def _nohz(x):
+    return x[:-3] if x.endswith("/Hz") else x
+
 
 def lclose(a, b):
     return close(a, b, 1e-9, 1e-9)
@@ -270,23 +279,23 @@ def _check(case, v):
             exp = db_to_level(lv + off, w)
             inv = lambda y: y
         elif kind in ("log2ratio", "log2lin"):
-            x = db_to_level(lv, u)
+            x = db_to_level(lv, _nohz(u))
             if kind == "log2ratio":
                 exp = 10 ** (lv / (10 if w == "PR" else 20))
             else:
-                b = u.lstrip("d")
+                b = _nohz(u).lstrip("d")
                 k, lin, ref = LOGDEF[b]
-                pf = dict(lin_units(lin))[w]
+                pf = dict(lin_units(lin))[_nohz(w)]
                 exp = ref * 10 ** (lv / k) / pf
         else:  # ratio2log / lin2log
             if kind == "ratio2log":
                 x = 10 ** (lv / (10 if u == "PR" else 20))
             else:
-                b = w.lstrip("d")
+                b = _nohz(w).lstrip("d")
                 k, lin, ref = LOGDEF[b]
-                pf = dict(lin_units(lin))[u]
+                pf = dict(lin_units(lin))[_nohz(u)]
                 x = ref * 10 ** (lv / k) / pf
-            exp = db_to_level(lv, w)
+            exp = db_to_level(lv, _nohz(w))
         try:
             got, q = _conv(x, u, w)
         except RepeatMismatch as e:
